@@ -213,6 +213,7 @@ SIMPLE_FAULTS = (
     + [{"op": "cache_delete", "what": x} for x in ("file", "markers", "dir", "CACHEDIR.TAG", ".gitignore")]
     + [{"op": "cache_truncate", "frac": f} for f in (0.0, 0.01, 0.25, 0.5, 0.75, 0.99)]
     + [{"op": "cache_truncate", "k": k} for k in (1, 2, 3, 10, 40, 80)]
+    + [{"op": "cache_flip", "k": 7919 * j + 13, "xor": (1, 0x20, 0x80, 0x04)[j % 4]} for j in range(24)]
 )
 
 PARTS_CRASH = 16
@@ -309,6 +310,8 @@ def gen(i, R, tier):
             f = dict(rng.choice(SIMPLE_FAULTS))
             if "frac" in f:
                 f["frac"] = rng.random()
+            if f["op"] == "cache_flip":
+                f["k"] = rng.randrange(0, 4000)
             ops.append(f)
         elif r < 0.5:
             ops.append({"op": "cache_mutate", "jpath": rng.choice((["codebase"], ["codebase", "files"], ["uuid"], ["root"], ["version"], ["codebase", "tree"], ["codebase", "totals"])),
